@@ -351,7 +351,7 @@ func init() {
 	register(&Prop{
 		ID: "C08", Cmd: "term",
 		Rule: "for each of the 11 literal parsers in turn: literal-shaped strings from its syntax with boundary values (±2^63, 1e400, surrogates, overlong/invalid UTF-8, unterminated and ill-escaped literals), their mutations, and a uniform malformed stream, after a random prefix and 0-2 other files, at the literal's start or at any offset including end of file. Non-trivial = parsed at a global position > 1; distinct = distinct case text.",
-		Count: quickN(11000, 110000),
+		Count: quickN(11000, 600000),
 		Gen:   c08Gen,
 		Exec:  c08Exec,
 	})
